@@ -676,6 +676,43 @@ Definition class_sem_ok (P : prog) (c : id) (cd : cdecl) : bool :=
                 end) (all_method_names P)
        end) (c_mro cd).
 
+(* mypy's own attribute check (check_compatibility_all_supers) compares a redeclared attribute only with
+   the nearest definition in the MRO; an incompatibility with a farther base was reported at the class in
+   between.  Used for the plain verdict; the certifying verdict demands class_sem_ok. *)
+Fixpoint first_field (P : prog) (mro : list id) (a : id) : option ty :=
+  match mro with
+  | [] => None
+  | b :: r => match class_of P b with
+              | Some bd => match lookup (c_fields bd) a with Some t => Some t | None => first_field P r a end
+              | None => first_field P r a
+              end
+  end.
+
+Definition class_plain_ok (P : prog) (c : id) (cd : cdecl) : bool :=
+  match c_mro cd with
+  | c0 :: _ => Nat.eqb c0 c
+  | [] => false
+  end
+  && forallb (fun b =>
+       match class_of P b with
+       | None => false
+       | Some bd =>
+           subset_ids (c_mro bd) (c_mro cd)
+           && forallb (fun m =>
+                match find_method P (c_mro bd) m with
+                | None => true
+                | Some (ob, mb) =>
+                    match find_method P (c_mro cd) m with
+                    | None => false
+                    | Some (oc, mc) => Nat.eqb oc ob || sig_compat P mc mb
+                    end
+                end) (all_method_names P)
+       end) (c_mro cd)
+  && forallb (fun af => match first_field P (tl (c_mro cd)) (fst af) with
+                        | Some t => is_subtype P (snd af) t
+                        | None => true
+                        end) (c_fields cd).
+
 (* what mypy additionally demands: every earlier definition in the MRO is compatible with every later one *)
 Fixpoint definers (P : prog) (mro : list id) (m : id) : list fdecl :=
   match mro with
@@ -701,19 +738,19 @@ Definition fields_present (P : prog) (cd : cdecl) : bool :=
                     | None => true
                     end) (c_mro cd).
 
-Definition check_class (P : prog) (c : id) (cd : cdecl) : res unit :=
+Definition check_class (P : prog) (strict : bool) (c : id) (cd : cdecl) : res unit :=
   if negb (fields_present P cd) then Unsup   (* __init__ not initialising an inherited attribute: not MiniPy *)
   else
   with_label (c_line cd)
     (if distinct (map fst (c_fields cd)) && forallb (fun af => wf_ty P (snd af)) (c_fields cd)
         && distinct (map fst (c_methods cd))
-        && class_sem_ok P c cd && class_pairs_ok P cd
+        && (if strict then class_sem_ok P c cd else class_plain_ok P c cd) && class_pairs_ok P cd
      then Ok tt else Rej None).
 
 (* one result per definition, in source order: class, its methods, ..., functions *)
 Definition check_defs (P : prog) (strict : bool) : list (res unit) :=
   flat_map (fun cc =>
-    check_class P (fst cc) (snd cc)
+    check_class P strict (fst cc) (snd cc)
     :: map (fun mm => check_fun P strict (Some (fst cc)) (snd mm)) (c_methods (snd cc))) (p_classes P)
   ++ map (fun ff => check_fun P strict None (snd ff)) (p_funcs P).
 
